@@ -1369,7 +1369,8 @@ out:
 	if (!c && tok->err != json_tokener_error_memory)
 	{
 		/* We hit an eof char (0) */
-		if (state != json_tokener_state_finish && saved_state != json_tokener_state_finish)
+		if (tok->depth != 0 ||
+		    (state != json_tokener_state_finish && saved_state != json_tokener_state_finish))
 			tok->err = json_tokener_error_parse_eof;
 	}
 
